@@ -194,12 +194,29 @@ fn case(class: &str, tape: &[u8], _strict: bool) -> Outcome {
         });
         (g.input, false)
     };
-    check(input, is_repo, classes)
+    // one fresh thread per case with seeded randomness: hash-map iteration orders inside the
+    // parser become a function of the case, so every verdict is replayable
+    let seed = vcommon::mix(input.fingerprint(), 0x18);
+    match vcommon::with_det_seed(seed, 8 << 20, move || check(input, is_repo, classes)) {
+        Ok(o) => o,
+        Err(_) => {
+            let p = vcommon::last_panic_any_thread();
+            Outcome::fail(format!("harness-or-sut-panic:{}", p.location()), format!("uncaught panic on the case thread: {}", p.0))
+        }
+    }
 }
 
 fn check(mut input: Input, is_repo: bool, mut classes: Vec<&'static str>) -> Outcome {
     let fp = input.fingerprint();
-    let mut p0 = stage!("parse", front::parse(&input));
+    // A panic while parsing the *source* is not the formatter's doing: it is C17's subject
+    // (front end is total). Such cases are counted and skipped here.
+    let mut p0 = match catch(|| front::parse(&input)) {
+        Ok(p) => p,
+        Err(_) => {
+            classes.push("source-parse-panic(C17)");
+            return Outcome::Pass(PassInfo { nontrivial: false, fp, classes });
+        }
+    };
     let mut refused = stage!("format-new", Formatter::new(&p0).err().map(|errs| {
         errs.iter().map(|e| e.schema_name().to_string()).collect::<Vec<_>>()
     }));
